@@ -116,10 +116,10 @@ impl Engine<u64, u64, SProps> for HEngine {
     }
     fn enqueue(&self, piece: PieceRef<u64, u64, SProps>, _estimated_size: usize) {
         self.last_enqueued.set((*piece.key(), *piece.value()));
-        let n = self.enqueued.get();
-        assert!(n < 2, "harness: write queue bound exceeded");
-        self.queue.borrow_mut()[n] = Some(piece);
-        self.enqueued.set(n + 1);
+        // the write queue keeps its PieceRef until the write completes: the harness leaks it (its Drop never runs, so the
+        // keeper entry stays) instead of storing it - storing it in a RefCell'd array made the admit path 10 GB
+        std::mem::forget(piece);
+        self.enqueued.set(self.enqueued.get() + 1);
     }
     fn load(&self, _hash: u64) -> BoxFuture<'static, Result<Load<u64, u64, SProps>>> {
         self.loads.set(self.loads.get() + 1);
